@@ -84,6 +84,7 @@ type Exec struct {
 	curSkolems []Term
 	assertsHit map[string]bool
 	pkgInitOf string
+	specWhere string
 	qscript  []qline
 	qmu      sync.Mutex
 }
